@@ -259,6 +259,16 @@ def run(ctx):
     # ---- C
     ctx.evaluate("perm", cases, check_perm, in_known=known_class, nontrivial=nt)
     ctx.evaluate("class", cases, check_class, in_known=known_class, nontrivial=nt)
+    # the same list objects compared twice with an in-place permutation / replacement in between
+    rrng = ctx.rng("repeat")
+    rcases = []
+    for c in cases[: ctx.budget(1500, 20000)]:
+        rc = as_case(c, permute=False)
+        if rrng.random() < 0.6:  # root lists: the only operands that survive from one call to the next
+            rc["a"], rc["b"] = copy.deepcopy(c["l1"]), copy.deepcopy(c["l2"])
+        rc["seed"], rc["n"] = rrng.randrange(10**9), rrng.randrange(1, 3)
+        rcases.append(rc)
+    ctx.evaluate("repeat", rcases, cc.check_repeat)
     rng = ctx.rng("scalars")
     scases = []
     pool = ["a", "b", "A", 1, 2, 3, 2.5, 0.5, True, False, None, "x y", "é"]
